@@ -1,10 +1,21 @@
 //! Checks of the core group: C01, C02, C03, C05, C06, C18.
+mod factory;
+mod fixture;
+mod model;
+mod mutators;
+mod oracles;
 mod props;
+mod script;
 
 fn main() {
     let ctx = engine::Ctx::from_args();
     match ctx.id.as_str() {
+        "C01" => props::c01::run(ctx),
+        "C02" => props::c02::run(ctx),
+        "C03" => props::c03::run(ctx),
+        "C05" => props::c05::run(ctx),
         "C06" => props::c06::run(ctx),
+        "C18" => props::c18::run(ctx),
         other => engine::harness_error(&format!("property {other} is not served by verif-core")),
     }
 }
